@@ -46,12 +46,22 @@ var c11Cases = []c11Case{
 	{"{ // {allOf: [\"@x\", \"@y\"]}\n  \"own\": 1\n}", [][2]string{{"@x", `{"p": 1}`}, {"@y", `{"q": "s"}`}}, []string{`{"own":1,"p":2,"q":"t"}`, `{"own":1}`, `{"own":1,"p":"x","q":1}`}},
 	// enum + several rules on one node
 	{`5 // {min: 1, max: 9, type: "integer", nullable: true}`, nil, []string{`0`, `10`, `null`, `"s"`, `5`}},
+	// an invalid property inherited through allOf from a parent that is registered under several names
+	{`@a`, [][2]string{{"@a", "{ // {allOf: \"@z2\"}\n  \"own\": 1\n}"}, {"@z1", "{\n  \"long_key_to_move_the_offset\": 1,\n  \"x\": 5 // {min: 10}\n}"}, {"@z2", "=@z1"}, {"@z3", "=@z1"}}, []string{`{"own":1}`}},
 }
 
 func c11Build(c c11Case) *jschema.Schema {
 	s := jschema.New("root", c.root)
+	made := map[string]*jschema.Schema{}
 	for _, t := range c.types {
-		if err := s.AddType(t[0], jschema.New(t[0], t[1])); err != nil {
+		var ts *jschema.Schema
+		if len(t[1]) > 0 && t[1][0] == '=' {
+			ts = made[t[1][1:]] // the same schema object registered under a second name
+		} else {
+			ts = jschema.New(t[0], t[1])
+		}
+		made[t[0]] = ts
+		if err := s.AddType(t[0], ts); err != nil {
 			v.Fail("C11/addtype-failed")
 		}
 	}
@@ -59,20 +69,26 @@ func c11Build(c c11Case) *jschema.Schema {
 }
 
 type c11Obs struct {
-	checkOK            bool
+	checkOK             bool
 	checkCode, checkPos int
-	valOK              bool
-	valCode, valPos    int
-	example            string
-	exampleOK          bool
-	used               string
-	ast                string
+	checkWhere          string // file and user type the check error names
+	valOK               bool
+	valCode, valPos     int
+	example             string
+	exampleOK           bool
+	used                string
+	ast                 string
 }
 
 func c11Run(c c11Case, doc string) c11Obs {
 	var o c11Obs
 	s := c11Build(c)
-	o.checkOK, o.checkCode, o.checkPos = errSig(s.Check())
+	cerr := s.Check()
+	o.checkOK, o.checkCode, o.checkPos = errSig(cerr)
+	var cde errors.DocumentError
+	if cerr != nil && stdErrors.As(cerr, &cde) {
+		o.checkWhere = cde.Filename() + "|" + cde.IncorrectUserType()
+	}
 	o.valOK, o.valCode, o.valPos = errSig(s.Validate(json.New("d", doc)))
 	ex, err := s.Example()
 	o.exampleOK = err == nil
@@ -89,7 +105,7 @@ func c11Run(c c11Case, doc string) c11Obs {
 }
 
 func c11Same(a, b c11Obs, tag string) {
-	v.Assert(a.checkOK == b.checkOK && a.checkCode == b.checkCode && a.checkPos == b.checkPos, "C11/check-result"+tag)
+	v.Assert(a.checkOK == b.checkOK && a.checkCode == b.checkCode && a.checkPos == b.checkPos && a.checkWhere == b.checkWhere, "C11/check-result"+tag)
 	v.Assert(a.valOK == b.valOK && a.valCode == b.valCode && a.valPos == b.valPos, "C11/validate-result"+tag)
 	v.Assert(a.exampleOK == b.exampleOK && a.example == b.example, "C11/example"+tag)
 	v.Assert(a.used == b.used, "C11/used-user-types"+tag)
